@@ -77,3 +77,10 @@ CHECKS.update({
          "text": "every callback index of 8 long-lived walkers explored (Confirmed over all paths), 12 naturally failing API calls and 5 failing scripts on a re-used parser; 16 probe calls compared structurally with a twin",
          "note": "faults are injected from outside by wrapping walker.functions; failures inside CPython built-ins are out of reach"},
 })
+
+CHECKS.update({
+ "C14": {"level": "model_checking", "engine": "XH+TV",
+         "technique": "CrossHair inductive step over the persistent memo state: symbolic subset of earlier calls, one call under test, result/identity/memo-entry comparison with fresh environments",
+         "text": "for 23 calls under test, all 2^10 subsets of a pool of earlier calls on formulas sharing sub-DAGs are explored (Confirmed over all paths); the post-condition re-establishes 'every memo entry equals its fresh value', so one step covers histories of any length over the universe; constant-cache spellings and foreign-environment formulas enumerated",
+         "note": "universe of 10 formulas; pool and calls listed in props/c14_xh.py"},
+})
